@@ -286,6 +286,10 @@ def gen_pgt(rng, quick_variants=True):
     """One page-table chain; returns a list of case lines (same memory, several addresses)."""
     fmt = core_choice(rng, WEIGHTS)
     fields = rng.choice(FORMS[fmt])
+    if rng.random() < 0.01 and fmt not in ("pfn32", "pfn64"):
+        # more fields than the format has levels: rejected up front ("Too many paging levels")
+        maxf = {"arm": 3, "ia32": 3, "ia32_pae": 4, "ppc64_linux_rpn30": 5}.get(fmt, 6)
+        fields = (list(fields) + [9] * 8)[:rng.randint(maxf + 1, 8)]
     width = 32 if fmt in PTE32 else 64
     esz = width // 8
     mask = gen_mask(rng, width)
